@@ -60,11 +60,16 @@ type c07Scenario struct {
 	Written    []int        `json:"written"`
 	Late       bool         `json:"late"`
 	CErr       []string     `json:"cerr"`
+	Order      string       `json:"order"` // directed scenario: what the driver establishes before the reducer writes
 }
 
 func (s *c07Scenario) String() string {
-	return fmt.Sprintf("%s n=%d workers=%d mb=%v reducer(stop=%d writes=%d end=%s) genk=%d ctx=%s",
-		s.API, s.N, s.Workers, s.MB, s.RStop, s.RW, s.REnd, s.GenK, s.Ctx)
+	o := ""
+	if s.Order != "" {
+		o = " order=" + s.Order
+	}
+	return fmt.Sprintf("%s n=%d workers=%d mb=%v reducer(stop=%d writes=%d end=%s) genk=%d ctx=%s%s",
+		s.API, s.N, s.Workers, s.MB, s.RStop, s.RW, s.REnd, s.GenK, s.Ctx, o)
 }
 
 type c07UserPanic string // panic values raised by the scenario's user functions
@@ -165,7 +170,14 @@ type c07Run struct {
 	rngMu      sync.Mutex
 	rng        *rand.Rand
 	tr         *kit.Tracer // recording pass only
+	// directed scenarios: the generator is held before item 2 until the reducer has written; the reducer is held
+	// before its write until the driver has observed the cancel / the context to be recorded inside the call
+	genGate, redGate chan struct{}
+	genOnce, redOnce sync.Once
 }
+
+func (r *c07Run) openGen() { r.genOnce.Do(func() { close(r.genGate) }) }
+func (r *c07Run) openRed() { r.redOnce.Do(func() { close(r.redGate) }) }
 
 func (r *c07Run) ev(name string, kv ...any) {
 	if r.tr == nil {
@@ -220,6 +232,9 @@ func (r *c07Run) generate(source chan<- any) {
 	}
 	for i := 1; i <= limit; i++ {
 		r.jitter()
+		if r.sc.Order != "" && i == 2 {
+			<-r.genGate
+		}
 		r.ev("gen_send", "i", i)
 		source <- i
 	}
@@ -296,10 +311,16 @@ func (r *c07Run) reduce(pipe <-chan any, write func(v any), cancel func(error)) 
 			}
 		}
 	}
+	if r.sc.Order != "" {
+		<-r.redGate
+	}
 	for k := 1; k <= r.sc.RW; k++ {
 		r.jitter()
 		r.ev("red_write", "k", k)
 		write("R" + strconv.Itoa(k))
+	}
+	if r.sc.Order != "" {
+		r.openGen()
 	}
 	r.jitter()
 	switch r.sc.REnd {
@@ -425,6 +446,38 @@ func (j *c07Judge) related(snap []c07G) []c07G {
 	return out
 }
 
+// waitRecorded polls goroutine snapshots until the cancel of the directed scenario is known to be recorded inside
+// the call: cancel's body records the error first and then drains the source, where it must block because the
+// generator is held; so a goroutine inside mr.drain below the mapper's cancel (or below the caller's context branch)
+// proves the recording.  1 = observed, 0 = the call returned first, -1 = neither within 20 s.
+func (j *c07Judge) waitRecorded(order string, callDone chan struct{}) int {
+	mark := "(*c07Run).mapItem"
+	if order == "ctx-before-write" {
+		mark = "(*c07Run).call("
+	}
+	deadline := time.Now().Add(20 * time.Second)
+	for i := 0; ; i++ {
+		select {
+		case <-callDone:
+			return 0
+		default:
+		}
+		if i < 20 {
+			runtime.Gosched()
+			continue
+		}
+		for _, g := range j.related(c07Snapshot()) {
+			if c07Blocked(g.state) && strings.Contains(g.text, "god/lib/mr.drain") && strings.Contains(g.text, mark) {
+				return 1
+			}
+		}
+		if time.Now().After(deadline) {
+			return -1
+		}
+		time.Sleep(100 * time.Microsecond)
+	}
+}
+
 func c07Describe(gs []c07G) string {
 	var w []string
 	for _, g := range gs {
@@ -473,7 +526,8 @@ func (j *c07Judge) adopt(gs []c07G) {
 
 func (j *c07Judge) runOnce(sc *c07Scenario, seed int64) *c07Fail {
 	r := &c07Run{sc: sc, seed: seed, mapped: make([]int32, sc.N+1), gate: make(chan struct{}),
-		errs: make([]*c07Err, sc.N+1), errR: &c07Err{"ER"}, rng: rand.New(rand.NewSource(seed)), tr: j.tr}
+		errs: make([]*c07Err, sc.N+1), errR: &c07Err{"ER"}, rng: rand.New(rand.NewSource(seed)), tr: j.tr,
+		genGate: make(chan struct{}), redGate: make(chan struct{})}
 	for i := 1; i <= sc.N; i++ {
 		r.errs[i] = &c07Err{"E" + strconv.Itoa(i)}
 	}
@@ -489,6 +543,9 @@ func (j *c07Judge) runOnce(sc *c07Scenario, seed int64) *c07Fail {
 		r.ctx, r.cancelCtx = context.WithCancel(context.Background())
 		r.fireAt = int32(r.rnd(3*sc.N + 8)) // 0: from the controller right away
 		ctlDone = 0
+		if sc.Order != "" { // directed: the driver itself cancels the context, right after the call was started
+			r.fireAt, ctlDone = -1, 1
+		}
 	}
 	base := runtime.NumGoroutine()
 
@@ -501,6 +558,9 @@ func (j *c07Judge) runOnce(sc *c07Scenario, seed int64) *c07Fail {
 			defer close(src)
 			for i := 1; i <= sc.N; i++ {
 				r.jitter()
+				if sc.Order != "" && i == 2 {
+					<-r.genGate
+				}
 				r.ev("gen_send", "i", i)
 				select {
 				case src <- i:
@@ -521,7 +581,7 @@ func (j *c07Judge) runOnce(sc *c07Scenario, seed int64) *c07Fail {
 		defer close(callDone)
 		out = r.call(src)
 	}()
-	if sc.Ctx == "during" {
+	if sc.Ctx == "during" && sc.Order == "" {
 		go func() { // makes sure the context becomes done even if the run is stuck before tick fireAt
 			defer atomic.StoreInt32(&ctlDone, 1)
 			if r.fireAt > 0 {
@@ -543,6 +603,34 @@ func (j *c07Judge) runOnce(sc *c07Scenario, seed int64) *c07Fail {
 			r.fireCtx()
 		}()
 	}
+
+	// ---- directed scenarios: establish the ordering, then release the reducer
+	if sc.Order != "" {
+		if sc.Order == "ctx-before-write" {
+			r.fireCtx()
+		}
+		switch j.waitRecorded(sc.Order, callDone) {
+		case 1:
+			j.rep.Count("ordering_established."+sc.Order, 1)
+			if sc.Order == "ctx-before-write" {
+				r.ev("ctx_recorded")
+			} else {
+				r.ev("cancel_recorded", "c", 1)
+			}
+		case 0: // the call returned before anything could be observed: no ordering is claimed
+			j.rep.Count("ordering_not_established", 1)
+		default:
+			gs := j.related(c07Snapshot())
+			r.openRed()
+			r.openGen()
+			close(r.gate)
+			j.adopt(gs)
+			return &c07Fail{infra: true, msg: fmt.Sprintf("%s: the cancel was not seen to be recorded (no goroutine inside cancel's drain of the source) within 20s: %s", sc, c07Describe(gs))}
+		}
+		r.openRed()
+	}
+	defer r.openGen()
+	defer r.openRed()
 
 	// ---- the call returns
 	start := time.Now()
@@ -622,6 +710,9 @@ func (j *c07Judge) runOnce(sc *c07Scenario, seed int64) *c07Fail {
 		sort.Strings(ks)
 		key := "C07:result:got-" + out.Kind + "-" + c07ValClass(out.Val) + ":want-" + strings.Join(ks, "|")
 		switch {
+		case sc.Order != "":
+			// the driver had seen the cancel / the context recorded inside the call before it let the reducer write
+			key = "C07:order:" + sc.Order + ":got-" + out.Kind + "-" + c07ValClass(out.Val)
 		case out.Kind == "panic" && strings.Contains(out.Val, "send on closed channel"):
 			// finish() closed `output` between the reducer's guardedWriter check and its send
 			key = "C07:result:send-on-closed-output"
@@ -804,7 +895,11 @@ func TestVerifC07(t *testing.T) {
 			continue
 		}
 		v := kit.Verdict{Case: c.Index, OK: true}
-		for k := 0; k < reps; k++ {
+		n := reps
+		if sc.Order != "" { // the few directed scenarios are repeated more often
+			n = 5 * reps
+		}
+		for k := 0; k < n; k++ {
 			seed := kit.Seed()*1000003 + int64(c.Index)*7919 + int64(k)*104729 + int64(procs)
 			f := j.runOnce(&sc, seed)
 			v.Steps++
